@@ -1,19 +1,22 @@
 #!/usr/bin/env python3
-"""Regenerates /verif/MANIFEST.json from the registry below (one entry per claimed property)."""
-import json, subprocess
-CLAIMED = {
- 'C15': dict(
-   text='TLC exhausts the transcribed init()/all_parts()/aligned_parts() step machine against the declarative tiling reference for every (geometry, offset, length) in a small scope (fixed 1..5, power-of-two 1..8, all key-point sets over 0..5; thorough: larger); the real range_split classes are executed on the same scope plus seeded random offsets up to 2^62 and every recorded case is judged by the reference operators in a trace specification.',
-   note='TLC result holds for the stated scope; larger values only through seeded random cases. offset+length overflow near 2^64 is outside the statement. Harness is compiled from /repo headers with ASan/UBSan; a sanitizer report is a Fatal event that the specification cannot explain.',
-   technique='TLA+ transcription + TLC exhaustive small-scope equivalence with reference; trace validation of real outputs (TLC) per case',
-   design='3/C15'),
-}
-PENDING_REASON = 'check not built yet in this session (planned, see DESIGN.md section 3); not claimed until its TLA+ specification and conformance harness exist'
+"""Regenerates /verif/MANIFEST.json from the META dict of every /verif/checks/cNN.py (one per claimed
+property).  A property without a check module (or listed in NA below) goes to not_applicable."""
+import json, subprocess, sys, importlib, os
+sys.path.insert(0, '/verif/bin'); sys.path.insert(0, '/verif')
 ALL = ['C%02d' % i for i in range(1, 21)]
+PENDING_REASON = 'check not built yet (planned, see DESIGN.md section 3); not claimed until its TLA+ specification and conformance harness exist'
+NA = {}
 
 def main():
     commits = subprocess.run(['git', '-C', '/repo', 'log', '--format=%h %s'], capture_output=True, text=True).stdout.splitlines()
     hooks = [c.split()[0] for c in commits if c.split(' ', 1)[1].startswith('verif:')]
+    claimed = {}
+    for pid in ALL:
+        if pid in NA or not os.path.exists(f'/verif/checks/{pid.lower()}.py'):
+            continue
+        mod = importlib.import_module('checks.' + pid.lower())
+        if getattr(mod, 'META', None):
+            claimed[pid] = mod.META
     m = {
      'version': 1,
      'setup_cmd': 'bin/setup.sh',
@@ -21,13 +24,13 @@ def main():
                'enable': 'bin/setup.sh configures /verif/.build/photon with -DCMAKE_CXX_FLAGS="-Wno-error -DPHOTON_VERIF" and builds photon_static with ninja; harnesses compile with -DPHOTON_VERIF',
                'baseline_off_cmd': 'bin/baseline_off.sh',
                'source_commits': hooks, 'add_only': True},
-     'engines': [{'name': 'tlc', 'path': '/opt/veriftools/tla/tla2tools.jar', 'serves_properties': sorted(CLAIMED), 'kind_free_text': 'TLA+ explicit-state model checker (exhaustive / simulation) and trace validator'}],
+     'engines': [{'name': 'tlc', 'path': '/opt/veriftools/tla/tla2tools.jar', 'serves_properties': sorted(claimed), 'kind_free_text': 'TLA+ explicit-state model checker (exhaustive / simulation) and trace validator'}],
      'checks': [], 'not_applicable': [],
      'notes': 'Model-based verification with explicit TLA+ specifications (spec/), bound to the code by harnesses (harness/) whose recorded executions are validated by TLC. See DESIGN.md. known-findings.json lists recorded and fixed defects.',
     }
     for pid in ALL:
-        if pid in CLAIMED:
-            c = CLAIMED[pid]
+        if pid in claimed:
+            c = claimed[pid]
             m['checks'].append({
               'property_id': pid, 'quick_cmd': f'bin/check {pid} --tier quick', 'thorough_cmd': f'bin/check {pid} --tier thorough',
               'evidence_file': f'/verif/evidence/{pid}.json', 'replay_cmd_template': f'bin/check {pid} --replay {{path}}', 'engine': 'tlc',
@@ -36,6 +39,7 @@ def main():
         else:
             m['not_applicable'].append({'property_id': pid, 'reason': NA.get(pid, PENDING_REASON)})
     json.dump(m, open('/verif/MANIFEST.json', 'w'), indent=1)
-NA = {}
+    print('claimed:', ' '.join(sorted(claimed)))
+
 if __name__ == '__main__':
     main()
